@@ -549,6 +549,23 @@ def _d6_header_lines(ctx):
                 bare_lf = True
         if not any(op is C.LITERAL and av == 13 for op, av in items):
             bare_lf = True
+    # the HTTP reader ends a header line, and the header block, at a bare LF as well as at CRLF: so must the pattern that finds
+    # the block again in the archived bytes
+    rr = repo.func('wpull.protocol.http.stream:Stream.read_response')
+    reader_lf = False
+    for n in walk_no_nested(rr.node):
+        if isinstance(n, ast.Compare) and len(n.ops) == 1 and isinstance(n.ops[0], (ast.In, ast.NotIn, ast.Eq, ast.NotEq)):
+            try:
+                v = repo.fold(repo.module('wpull.protocol.http.stream'), n.comparators[0])
+            except (ValueError, TypeError):
+                continue
+            if v == b'\n' or (isinstance(v, (tuple, list, set, frozenset)) and b'\n' in v):
+                reader_lf = True
+    if reader_lf:
+        ck.expect(bare_lf, 'C07-D6', gh.qual, 'the header-block pattern accepts bare LF line ends (the HTTP reader does)',
+                  'the HTTP reader accepts a header block whose lines end in a bare LF, the pattern that cuts the block out of the archived '
+                  'record demands CRLF: for such a response status and MIME are lost, or taken from the body if it contains CRLF CRLF',
+                  gh.loc(rxs[0].call) if rxs else gh.loc())
     # the cut of the first line
     cuts = [c for c in U.calls(gh.node) if U.attr_name(c) in ('partition', 'split') and c.args]
     okc = bool(cuts)
